@@ -754,3 +754,274 @@ def desugar_changed_functions(F, recorded, crates):
             F.fns[fid] = new
             rep.append((fid, n))
     return rep
+
+
+# ----------------------------------------------------------------------------------------
+# `for x in [a, b, c] { body }` over an array built in the same body is the body three times (table-driven code reads like the
+# straight-line code it replaces). Only array *aggregates* qualify (not `[v; N]` repeats, not constants).
+
+def _array_elements(fn, defs, local, depth=4):
+    ds = defs.get(local, [])
+    if len(ds) != 1 or ds[0] is None or depth <= 0:
+        return None
+    st = ds[0]
+    if st["lhs"]["p"]:
+        return None
+    rv = st["rv"]
+    if rv["k"] == "agg" and rv["ak"] == "array":
+        return rv["ops"]
+    if rv["k"] == "use" and rv["o"].get("k") in ("copy", "move") and not rv["o"]["p"]["p"]:
+        return _array_elements(fn, defs, rv["o"]["p"]["l"], depth - 1)
+    return None
+
+
+def _succ_ids(t):
+    out = []
+    for k in ("target", "imaginary", "unwind", "drop"):
+        v = t.get(k)
+        if isinstance(v, int) and not isinstance(v, bool):
+            out.append(v)
+    if t["k"] == "switch":
+        out += [tg for _, tg in t["targets"]]
+        if isinstance(t.get("otherwise"), int):
+            out.append(t["otherwise"])
+    return out
+
+
+def unroll_array_loops(F, fn, max_len=8, max_region=400):
+    """returns (new fn or None, loops unrolled)"""
+    cur, total = None, 0
+    for _ in range(4):
+        base = cur or fn
+        blocks = base["blocks"]
+        defs = {}
+        for b in blocks:
+            for st in b["stmts"]:
+                if st["k"] == "assign":
+                    defs.setdefault(st["lhs"]["l"], []).append(st)
+            t = b["term"]
+            if t["k"] == "call":
+                defs.setdefault(t["dest"]["l"], []).append(None)
+            elif t["k"] == "yield" and isinstance(t.get("resume_arg"), dict):
+                defs.setdefault(t["resume_arg"]["l"], []).append(None)
+        cand = None
+        for bi, b in enumerate(blocks):
+            t = b["term"]
+            if t["k"] != "call" or b["cleanup"]:
+                continue
+            w, r = mir.callee_of(t)
+            if not (w or "").endswith("into_iter") or "array" not in str(r) or not isinstance(t.get("target"), int):
+                continue
+            a0 = t["args"][0]
+            if a0["k"] not in ("copy", "move") or a0["p"]["p"] or t["dest"]["p"]:
+                continue
+            elems = _array_elements(base, defs, a0["p"]["l"])
+            if not elems or len(elems) > max_len:
+                continue
+            # into_iter -> [ITER = move IT] -> goto H0 -> ... -> next(&mut ITER) -> switch discr(NX) [0 -> exit, 1 -> body]
+            chain, x, nxt_blk = [], t["target"], None
+            for _hop in range(6):
+                tb = blocks[x]["term"]
+                chain.append(x)
+                if tb["k"] == "call":
+                    w2, r2 = mir.callee_of(tb)
+                    if (w2 or "").endswith("Iterator::next") and "array::IntoIter" in str(r2):
+                        nxt_blk = x
+                    break
+                if tb["k"] in ("goto", "falseunwind") and isinstance(tb.get("target"), int):
+                    x = tb["target"]
+                else:
+                    break
+            if nxt_blk is None or not isinstance(blocks[nxt_blk]["term"].get("target"), int):
+                continue
+            sw = blocks[nxt_blk]["term"]["target"]
+            st_ = blocks[sw]["term"]
+            if st_["k"] != "switch":
+                continue
+            tg = dict((v, g) for v, g in st_["targets"])
+            if 0 not in tg or 1 not in tg:
+                continue
+            exit_b, body_b = tg[0], tg[1]
+            # loop header = the block the back edges go to: the first block of the chain that the body returns to
+            nx_local = blocks[nxt_blk]["term"]["dest"]["l"]
+            cand = (bi, chain, nxt_blk, sw, exit_b, body_b, nx_local, elems)
+            # region: reachable from body_b; header = first chain block reached again
+            region, stack, header = set(), [body_b], None
+            while stack:
+                y = stack.pop()
+                if y in region:
+                    continue
+                if y in chain:
+                    header = y if header is None or chain.index(y) < chain.index(header) else header
+                    continue
+                region.add(y)
+                if len(region) > max_region:
+                    break
+                stack += [z for z in _succ_ids(blocks[y]["term"]) if not blocks[z]["cleanup"]]
+            if header is None or len(region) > max_region or exit_b in region and False:
+                cand = None
+                continue
+            # blocks dominated by the loop only: those that can come back to the header; the rest (break / return paths) stay shared
+            back = set()
+            changed = True
+            while changed:
+                changed = False
+                for y in region:
+                    if y in back:
+                        continue
+                    if any(z == header or z in back for z in _succ_ids(blocks[y]["term"])):
+                        back.add(y)
+                        changed = True
+            hdr_part = chain[chain.index(header):] + [sw]
+            copied = list(dict.fromkeys(hdr_part + sorted(back)))
+            cand = cand + (header, copied)
+            break
+        if cand is None:
+            break
+        if cur is None:
+            cur = copy.deepcopy(fn)
+        _unroll_one(cur, defs, *cand)
+        total += 1
+    return cur, total
+
+
+def _unroll_one(fn, defs0, bi, chain, nxt_blk, sw, exit_b, body_b, nx_local, elems, header, copied):
+    blocks = fn["blocks"]
+    cset = set(copied)
+    # locals defined only inside the copied blocks get a fresh copy per iteration
+    inside = {}
+    for y in copied:
+        for st in blocks[y]["stmts"]:
+            if st["k"] == "assign" and not st["lhs"]["p"]:
+                inside[st["lhs"]["l"]] = inside.get(st["lhs"]["l"], 0) + 1
+        t = blocks[y]["term"]
+        if t["k"] == "call" and not t["dest"]["p"]:
+            inside[t["dest"]["l"]] = inside.get(t["dest"]["l"], 0) + 1
+        elif t["k"] == "yield" and isinstance(t.get("resume_arg"), dict):
+            inside[t["resume_arg"]["l"]] = inside.get(t["resume_arg"]["l"], 0) + 1
+    private = {l for l, n in inside.items() if n == len(defs0.get(l, []))}
+    n = len(elems)
+    entries = []
+    metas0 = list(fn.get("inlined", []))
+    base_ids = []
+    for i in range(n + 1):
+        base_ids.append(len(blocks) + i * len(copied))
+    for i in range(n):
+        lmap = {}
+        for l in sorted(private):
+            fn["locals"].append(dict(fn["locals"][l]))
+            lmap[l] = len(fn["locals"]) - 1
+        bmap = {y: base_ids[i] + k for k, y in enumerate(copied)}
+        nxt_hdr = (base_ids[i + 1] + copied.index(header)) if i + 1 < n else None
+
+        def mp(p):
+            q_ = {"l": lmap.get(p["l"], p["l"]), "p": []}
+            for e in p["p"]:
+                if isinstance(e, dict) and "i" in e:
+                    e = dict(e, i=lmap.get(e["i"], e["i"]))
+                q_["p"].append(e)
+            return q_
+
+        def mo(o):
+            if isinstance(o, dict) and o.get("k") in ("copy", "move"):
+                return dict(o, p=mp(o["p"]))
+            return o
+
+        def mb(z):
+            if z == header:
+                return nxt_hdr if nxt_hdr is not None else -1
+            return bmap.get(z, z)
+        for y in copied:
+            ob = blocks[y]
+            nb = {"cleanup": ob["cleanup"], "stmts": [], "term": None}
+            for st in ob["stmts"]:
+                s2 = dict(st)
+                if st["k"] == "assign":
+                    s2["lhs"] = mp(st["lhs"])
+                    rv = dict(st["rv"])
+                    k = rv["k"]
+                    if k in ("ref", "discr") or (k not in ("use", "cast", "repeat", "agg", "bin", "un") and "p" in rv):
+                        rv["p"] = mp(rv["p"])
+                    if k in ("use", "cast", "repeat"):
+                        rv["o"] = mo(rv["o"])
+                    elif k == "agg":
+                        rv["ops"] = [mo(o) for o in rv["ops"]]
+                    elif k == "bin":
+                        rv["a"], rv["b"] = mo(rv["a"]), mo(rv["b"])
+                    elif k == "un":
+                        rv["a"] = mo(rv["a"])
+                    s2["rv"] = rv
+                nb["stmts"].append(s2)
+            ct = copy.deepcopy(ob["term"])
+            if y == nxt_blk:
+                # next() hands out element i
+                nb["stmts"].append({"k": "assign", "lhs": mp({"l": nx_local, "p": []}),
+                                    "rv": {"k": "agg", "ak": "adt", "adt": "std::option::Option", "variant": "Some", "fields": ["0"], "ops": [elems[i]]},
+                                    "line": ct.get("line"), "exp": ct.get("exp")})
+                ct = {"k": "goto", "target": bmap[sw], "file": ct.get("file"), "line": ct.get("line"), "exp": ct.get("exp")}
+            elif y == sw:
+                ct = {"k": "goto", "target": mb(body_b), "file": ct.get("file"), "line": ct.get("line"), "exp": ct.get("exp")}
+            else:
+                k = ct["k"]
+                for key in ("target", "imaginary"):
+                    if isinstance(ct.get(key), int) and not isinstance(ct.get(key), bool):
+                        ct[key] = mb(ct[key])
+                if k == "call":
+                    ct["args"] = [mo(a) for a in ct["args"]]
+                    ct["dest"] = mp(ct["dest"])
+                    if ct["f"].get("k") in ("copy", "move"):
+                        ct["f"] = mo(ct["f"])
+                elif k == "switch":
+                    ct["d"] = mo(ct["d"])
+                    ct["targets"] = [[v, mb(g)] for v, g in ct["targets"]]
+                    if isinstance(ct.get("otherwise"), int):
+                        ct["otherwise"] = mb(ct["otherwise"])
+                elif k == "drop":
+                    ct["p"] = mp(ct["p"])
+                elif k == "assert":
+                    ct["cond"] = mo(ct["cond"])
+                elif k == "yield":
+                    ct["value"] = mo(ct["value"])
+                    if isinstance(ct.get("resume_arg"), dict):
+                        ct["resume_arg"] = mp(ct["resume_arg"])
+            nb["term"] = ct
+            blocks.append(nb)
+        entries.append(bmap[header])
+        # what is known about helpers analysed in place inside the loop body holds for each copy
+        for m in list(metas0):
+            if m["entry"] in bmap or any(k_ in bmap for k_ in m.get("sites", {})):
+                m2 = dict(m)
+                m2["entry"] = bmap.get(m["entry"], m["entry"])
+                for key in ("dest_local", "ret_local"):
+                    if m.get(key) is not None:
+                        m2[key] = lmap.get(m[key], m[key])
+                m2["sites"] = {bmap.get(k_, k_): v_ for k_, v_ in m.get("sites", {}).items()}
+                fn.setdefault("inlined", []).append(m2)
+    # after the last element the iterator is exhausted: straight to the loop's exit
+    tail = len(blocks)
+    blocks.append({"cleanup": False, "stmts": [], "term": {"k": "goto", "target": exit_b, "file": None, "line": blocks[sw]["term"].get("line"), "exp": None}})
+    for b in blocks:
+        t = b["term"]
+        for key in ("target", "imaginary"):
+            if t.get(key) == -1:
+                t[key] = tail
+        if t["k"] == "switch":
+            t["targets"] = [[v, tail if g == -1 else g] for v, g in t["targets"]]
+            if t.get("otherwise") == -1:
+                t["otherwise"] = tail
+    # enter the first copy instead of the loop
+    for y in range(len(blocks)):
+        if y in cset or y >= base_ids[0]:
+            continue
+        t = blocks[y]["term"]
+        for key in ("target", "imaginary"):
+            if t.get(key) == header:
+                t[key] = entries[0] if entries else tail
+        if t["k"] == "switch":
+            t["targets"] = [[v, (entries[0] if entries else tail) if g == header else g] for v, g in t["targets"]]
+            if t.get("otherwise") == header:
+                t["otherwise"] = entries[0] if entries else tail
+    # the loop itself is gone
+    for y in copied:
+        blocks[y] = {"cleanup": blocks[y]["cleanup"], "stmts": [], "term": {"k": "unreachable", "file": None, "line": blocks[y]["term"].get("line"), "exp": None}}
+    fn.setdefault("unrolled", []).append({"loop_header": header, "elements": n})
